@@ -542,7 +542,8 @@ Inductive op :=
 | OpWsAnswer (c : cid) (accept : bool)
 | OpWsFrame (c : cid) (f : frame)
 | OpWsClose (c : cid)
-| OpAdvance (dt : Z).
+| OpAdvance (dt : Z)
+| OpWsFrameClose (c : cid) (f : frame).       (* the peer sends a frame and closes the connection at once: what the client sends next fails *)
 
 Definition apply_op (o : op) : M unit :=
   match o with
@@ -571,6 +572,10 @@ Definition apply_op (o : op) : M unit :=
     pws c {| w_inbox := w_inbox w; w_srv_closed := true; w_cli_closed := w_cli_closed w; w_waiter := w_waiter w |} ;;;
     (match w_waiter w with Some t => wake t | None => ret tt end) ;;; settle FUEL
   | OpAdvance dt => s <- getst ;; advance 1000 (now s + dt)
+  | OpWsFrameClose c f =>
+    w <- gws c ;;
+    pws c {| w_inbox := w_inbox w ++ [f]; w_srv_closed := true; w_cli_closed := w_cli_closed w; w_waiter := w_waiter w |} ;;;
+    (match w_waiter w with Some t => wake t | None => ret tt end) ;;; settle FUEL
   end.
 End WithCfg.
 
